@@ -30,7 +30,8 @@ EXPLANATION = (
     "unread, and no Severity-returning part reader is called with both its result and its descriptor ignored. "
     "(R7) the instance step of both passes is not guarded by the stream state. (R8) a function that has recorded a violation (constant raise <= INCOMPLETE) in the caller's ErrorDescriptor returns, on every flag-consistent path, that descriptor's severity, a constant/local <= INCOMPLETE or the result of a call given the same descriptor - never a clean or unrelated severity that callers would assign over it. Not decided: that each violation class is recognised in every position of a file; confinement to the instance."
     " (R6e, shared with C01 and C09) the item lookup of the enumeration readers compares whole strings - a prefix or length-limited comparison would accept an undeclared item as a declared one without any diagnostic."
-    " (R9) an integer read from the file with >> is never converted to a narrower integer type afterwards (no silent reduction modulo 2^32 of an instance number).")
+    " (R9) an integer read from the file with >> is never converted to a narrower integer type afterwards (no silent reduction modulo 2^32 of an instance number)."
+    " (R10) every test that discards an object created by Registry::ObjCreate on the severity of its error descriptor holds for each constant severity with which ObjCreate marks a refusal (abstract supertype, external mapping only).")
 
 T = os.path.join(os.path.dirname(__file__), "..", "tables")
 RAISERS = {"GreaterSeverity", "severity", "AppendFromErrorArg"}
